@@ -383,3 +383,15 @@ func namedOf(t types.Type) *types.Named {
 
 // TypeOf returns the type of an expression.
 func (f *Func) TypeOf(e ast.Expr) types.Type { return f.Info().TypeOf(e) }
+
+// Defines reports whether obj is defined (:= / var) inside n.
+func (f *Func) Defines(n ast.Node, obj types.Object) bool {
+	found := false
+	ast.Inspect(n, func(x ast.Node) bool {
+		if id, ok := x.(*ast.Ident); ok && obj != nil && f.Info().Defs[id] == obj {
+			found = true
+		}
+		return !found
+	})
+	return found
+}
